@@ -18,6 +18,7 @@ HERE = os.path.dirname(os.path.abspath(__file__))
 sys.path.insert(0, HERE)
 import gen_static  # noqa: E402
 import gen_conv  # noqa: E402
+import gen_ptr  # noqa: E402
 
 LEVEL = "exploration"
 DYN = os.path.join(HERE, "dyn.cpp")
@@ -226,17 +227,26 @@ def run_static(ctx, fronts):
     ctx.stat("static_entries", len(es))
 
 
-# ------------------------------------------------------------------------------------------- conversion part
-def conv_build(cs, tag, ptype, name, std="c++14"):
-    src = os.path.join(GEN, "conv_%s_%s.cpp" % (name, tag))
-    _write(src, gen_conv.tu(cs, tag, ptype))
-    return vlib.compile_cxx(src, "c07-conv-%s-%s" % (name, tag), std=std, opt="-O0", san="asan", flags=["-I" + HERE])
+# ------------------------------------------------------------------------------------------- generated case matrices (conversions, pointer payloads)
+MATRICES = {"conv": gen_conv, "ptr": gen_ptr}
 
 
-def conv_syntax(c, tag, ptype):
-    h = hashlib.sha256((c.id + tag).encode()).hexdigest()[:12]
-    src = os.path.join(GEN, "conv_syn_%s.cpp" % h)
-    _write(src, gen_conv.tu([c], tag, ptype))
+def mx_sig(which, c, kind):
+    if which == "conv":
+        return "C07/%s/%s:%s/%s" % (c.kind, c.form, c.closure, kind)
+    return "C07/%s(%s)/%s/%s" % (c.kind, c.closure, c.form, kind)
+
+
+def mx_build(which, cs, tag, ptype, name, std="c++14"):
+    src = os.path.join(GEN, "%s_%s_%s.cpp" % (which, name, tag))
+    _write(src, MATRICES[which].tu(cs, tag, ptype))
+    return vlib.compile_cxx(src, "c07-%s-%s-%s" % (which, name, tag), std=std, opt="-O0", san="asan", flags=["-I" + HERE])
+
+
+def mx_syntax(which, c, tag, ptype):
+    h = hashlib.sha256((which + c.id + tag).encode()).hexdigest()[:12]
+    src = os.path.join(GEN, "%s_syn_%s.cpp" % (which, h))
+    _write(src, MATRICES[which].tu([c], tag, ptype))
     r = vlib.sh(["g++", "-std=c++14", "-I" + vlib.INCLUDE, "-I" + os.path.join(vlib.VERIF, "engine"), "-I" + HERE, "-fsyntax-only", src])
     if r.returncode == 0:
         return True, ""
@@ -244,55 +254,59 @@ def conv_syntax(c, tag, ptype):
     return False, (errs[0] if errs else r.stderr)[-400:]
 
 
-def conv_one(ctx, c, tag, ptype):
-    """build and run a single conversion case; ill-formed: note if listed, violation otherwise"""
+def mx_ill_formed(ctx, which, c, tag, ptype, first):
+    ctx.violation(mx_sig(which, c, "ill-formed"),
+                  "%s case %s [payload %s] no longer compiles (it is not in the committed list of ill-formed forms): %s" % (which, c.id, ptype, first),
+                  harness=which, args=[which, c.id, tag])
+
+
+def mx_one(ctx, which, c, tag, ptype):
+    """build and run a single case; ill-formed: note if listed, violation otherwise"""
+    gen = MATRICES[which]
     h = hashlib.sha256(c.id.encode()).hexdigest()[:12]
     try:
-        binary = conv_build([c], tag, ptype, "one" + h)
+        binary = mx_build(which, [c], tag, ptype, "one" + h)
     except vlib.HarnessError as ex:
         errs = [l.strip() for l in str(ex).splitlines() if "error" in l and "HarnessError" not in l]
         first = (errs[0] if errs else str(ex))[-400:]
-        if gen_conv.listed(c, tag):
+        if gen.listed(c, tag):
             ctx.stat("known_ill_formed_probes", 1)
-            ctx.note("capability gap (no executions, not a violation): conversion %s [%s] is ill-formed: %s" % (c.id, ptype, gen_conv.reason(c)))
+            ctx.note("capability gap (no executions, not a violation): %s case %s [%s] is ill-formed: %s" % (which, c.id, ptype, gen.reason(c)))
         else:
-            ctx.violation("C07/%s/%s:%s/ill-formed" % (c.kind, c.form, c.closure),
-                          "conversion %s [payload %s] no longer compiles (it is not in the committed list of ill-formed conversions): %s" % (c.id, ptype, first),
-                          harness="conv", args=["conv", c.id, tag])
+            mx_ill_formed(ctx, which, c, tag, ptype, first)
         return
-    if gen_conv.listed(c, tag):
-        ctx.note("capability: conversion %s [%s] is listed as ill-formed but compiles now; it was executed and judged" % (c.id, ptype))
-    ctx.run_harness(binary, [], env=ENV, tag="conv")
+    if gen.listed(c, tag):
+        ctx.note("capability: %s case %s [%s] is listed as ill-formed but compiles now; it was executed and judged" % (which, c.id, ptype))
+    ctx.run_harness(binary, [], env=ENV, tag=which)
 
 
-def run_conv(ctx):
-    cs = gen_conv.cases()
+def run_matrix(ctx, which):
+    gen = MATRICES[which]
+    cs = gen.cases()
     jobs = []
-    for tag, ptype in gen_conv.PAYLOADS:
-        good = [c for c in cs if not gen_conv.listed(c, tag)]
-        probes = [c for c in cs if gen_conv.listed(c, tag)]
+    for n, (tag, ptype) in enumerate(gen.PAYLOADS):
+        good = [c for c in cs if not gen.listed(c, tag)]
+        probes = [c for c in cs if gen.listed(c, tag)]
 
         def table(tag=tag, ptype=ptype, good=good):
             try:
-                binary = conv_build(good, tag, ptype, "all")
+                binary = mx_build(which, good, tag, ptype, "all")
             except vlib.HarnessError:
                 # some case no longer compiles: find the ill-formed ones with a syntax-only pass, run the rest together
-                ctx.note("the combined conversion program for %s did not compile: every case was compiled on its own" % ptype)
-                res = vlib.parallel([(lambda c=c: conv_syntax(c, tag, ptype)) for c in good], workers=8)
+                ctx.note("the combined %s program for %s did not compile: every case was compiled on its own" % (which, ptype))
+                res = vlib.parallel([(lambda c=c: mx_syntax(which, c, tag, ptype)) for c in good], workers=8)
                 still = []
                 for c, (ok, first) in zip(good, res):
                     if ok:
                         still.append(c)
                     else:
-                        ctx.violation("C07/%s/%s:%s/ill-formed" % (c.kind, c.form, c.closure),
-                                      "conversion %s [payload %s] no longer compiles (it is not in the committed list of ill-formed conversions): %s" % (c.id, ptype, first),
-                                      harness="conv", args=["conv", c.id, tag])
-                binary = conv_build(still, tag, ptype, "rest")
-            ctx.run_harness(binary, [], env=ENV, tag="conv")
+                        mx_ill_formed(ctx, which, c, tag, ptype, first)
+                binary = mx_build(which, still, tag, ptype, "rest")
+            ctx.run_harness(binary, [], env=ENV, tag=which)
         jobs.append(table)
-        # the committed ill-formed conversions: probed with the Counted payload in the quick tier, with every payload in the thorough tier
-        if tag == "counted" or ctx.tier != "quick":
-            jobs += [(lambda c=c, tag=tag, ptype=ptype: conv_one(ctx, c, tag, ptype)) for c in probes]
+        # the committed ill-formed forms: probed with the first payload in the quick tier, with every payload in the thorough tier
+        if n == 0 or ctx.tier != "quick":
+            jobs += [(lambda c=c, tag=tag, ptype=ptype: mx_one(ctx, which, c, tag, ptype)) for c in probes]
     vlib.parallel(jobs, workers=6)
 
 
@@ -319,7 +333,7 @@ def run(ctx):
     bit_len = 3 if quick else 4
     stds = ["c++14"] if quick else ["c++14", "c++20"]
     # both parts at once: the static tables compile while the dynamic binaries compile
-    vlib.parallel([lambda: run_static(ctx, fronts), lambda: run_dynamic(ctx, maxlen, bit_len, stds), lambda: run_conv(ctx)], workers=3)
+    vlib.parallel([lambda: run_static(ctx, fronts), lambda: run_dynamic(ctx, maxlen, bit_len, stds), lambda: run_matrix(ctx, "conv"), lambda: run_matrix(ctx, "ptr")], workers=4)
     ctx.rule = (
         "STATIC: every type identity generated by gen_static.py (closure_type_t, const_closure_type_t, ptr_closure_type_t, const_ptr_closure_type_t over "
         "{T, const T, T&, const T&, T&&, const T&&} x {int, Counted, MoveOnly, int*}; apply_cv_t and detail::forward_type_t over all 4 cv x 3 ref forms; return types of closure, "
@@ -336,7 +350,10 @@ def run(ctx):
         "SWAP UNDER ALIASING: {optional, masked_value} x closure combinations with at least one reference closure {(T&,B&),(T&,B),(T,B&)} x value referents {same, distinct} x flag referents "
         "{same, distinct} x equal/different contents x {a.swap(b), b.swap(a), a.swap(a), free swap} x {int, Counted}, and closure(x) against closure(x) / closure(y): swap must exchange the contents of "
         "the designated objects component by component and rebind nothing. "
-        "CONVERSIONS: a reference-closure wrapper built from lvalues (closure, proxy_wrapper, closure_pointer, optional, masked_value, xcomplex; closure T& and const T&) used as lvalue, xvalue and "
+        "POINTER PAYLOADS: T in {int*, const int*, Counted*} as value closures (built from a prvalue / an xvalue pointer: the wrapper owns the pointer value) and as reference closures (T*&, T* const&: "
+        "the wrapper aliases the pointer variable) of closure, const_closure, proxy_wrapper (get, rvalue get, conversion, assign value, copy/move construct, copy-assign (also from const), move-assign, "
+        "member and ADL swap, == / != incl. different pointers to equal pointees, operator& and writing through it, null), closure_pointer, optional, masked_value: 128 forms x 3 payloads; the pointees are "
+        "never touched. CONVERSIONS: a reference-closure wrapper built from lvalues (closure, proxy_wrapper, closure_pointer, optional, masked_value, xcomplex; closure T& and const T&) used as lvalue, xvalue and "
         "prvalue-proxy source of an owning specialization or value (converting constructors implicit and explicit, converting assignments, &&-qualified accessors and conversion operators, "
         "162 forms) x payload {Counted, heap std::string, std::vector<int>}: the originals keep their value and are never the source of a move, the result is equal and independent. "
         "distinct_nontrivial = static identities whose accepted type differs from the input type (counted once per identity, not per compiler) + dynamic scenarios in which at least one "
@@ -364,13 +381,14 @@ def replay(ctx, rec):
         os.makedirs(GEN, exist_ok=True)
         judge_one(ctx, es[0], cxx, std, gen_static.known_ill_formed(), "replay")
         return
-    if args and args[0] == "conv":
+    if args and args[0] in MATRICES:
         os.makedirs(GEN, exist_ok=True)
-        cs = [c for c in gen_conv.cases() if c.id == args[1]]
+        gen = MATRICES[args[0]]
+        cs = [c for c in gen.cases() if c.id == args[1]]
         if not cs:
-            raise vlib.HarnessError("unknown conversion case " + args[1])
+            raise vlib.HarnessError("unknown %s case %s" % (args[0], args[1]))
         tag = args[2]
-        conv_one(ctx, cs[0], tag, dict(gen_conv.PAYLOADS)[tag])
+        mx_one(ctx, args[0], cs[0], tag, dict(gen.PAYLOADS)[tag])
         return
     if args and args[0] == "build":
         kind, std = int(args[1]), args[2]
